@@ -331,6 +331,64 @@ func (f *frame) frameCheck(addr Term, t types.Type, pos token.Pos, addrVal ssa.V
 	}
 }
 
+// frameCheckLocs: what a callee may assign must be fresh or assignable by the function under contract.
+func (f *frame) frameCheckLocs(callee string, locs []locSpec, guard Term, pos token.Pos) {
+	vc := f.vc
+	if vc.con == nil || !vc.con.HasAssigns || vc.topFrame == nil || vc.pass != 2 {
+		return
+	}
+	for _, l := range locs {
+		var cond Term
+		switch {
+		case l.ghost != "":
+			ok := false
+			for _, t := range vc.topLocs {
+				if t.ghost == l.ghost {
+					ok = true
+				}
+			}
+			if ok {
+				continue
+			}
+			cond = TFalse
+		case l.mapTy != nil:
+			alts := []Term{App(SBool, ">=", vc.rootOf(l.mapRef), vc.topFrame.entryAlloc)}
+			for _, t := range vc.topLocs {
+				if t.mapTy != nil {
+					alts = append(alts, Eq(l.mapRef, t.mapRef))
+				}
+			}
+			cond = Or(alts...)
+		case l.isRange:
+			fresh := App(SBool, ">=", vc.rootOf(l.arr), vc.topFrame.entryAlloc)
+			// covered by a range of the caller over the same array
+			alts := []Term{fresh, vc.le(l.hi, l.lo, true)}
+			for _, t := range vc.topLocs {
+				if t.isRange && t.ti != nil && l.ti != nil && vc.memName(t.ti) == vc.memName(l.ti) && pathEq(t.path, l.path) {
+					alts = append(alts, And(Eq(t.arr, l.arr), vc.le(t.lo, l.lo, true), vc.le(l.hi, t.hi, true)))
+				}
+			}
+			cond = Or(alts...)
+		default:
+			fresh := App(SBool, ">=", vc.rootOf(l.ref), vc.topFrame.entryAlloc)
+			cond = Or(fresh, vc.inLocs(l.ref, vc.memName(l.ti), vc.topLocs))
+		}
+		vc.addObligation("frame", fmt.Sprintf("call %s assigns %s", callee, l.text), vc.con.FrameProps, pos, And(f.reach, guard), cond)
+	}
+}
+
+func pathEq(a, b []pathStep) bool {
+	if len(a) != len(b) {
+		return false
+	}
+	for i := range a {
+		if a[i] != b[i] {
+			return false
+		}
+	}
+	return true
+}
+
 func (f *frame) frameCheckMap(m Term, pos token.Pos) {
 	vc := f.vc
 	if vc.con == nil || !vc.con.HasAssigns || vc.topFrame == nil {
@@ -691,9 +749,13 @@ selected:
 			f.havocAllMemory("call to " + name + " (contract has no assigns clause)")
 		}
 	} else {
-		f.havocLocs(vc.evalLocs(con.Assigns, envPre), TTrue, pre)
+		locs := vc.evalLocs(con.Assigns, envPre)
+		f.frameCheckLocs(name, locs, TTrue, pos)
+		f.havocLocs(locs, TTrue, pre)
 		for _, sc := range sel {
-			f.havocLocs(vc.evalLocs(sc.c.Assigns, envPre), sc.guard, pre)
+			locs := vc.evalLocs(sc.c.Assigns, envPre)
+			f.frameCheckLocs(name, locs, sc.guard, pos)
+			f.havocLocs(locs, sc.guard, pre)
 		}
 	}
 	// result
@@ -724,14 +786,14 @@ selected:
 		if !f.modeOK(e.Mode) {
 			continue
 		}
-		vc.assume(Implies(f.reach, f.evalClause(e, envPost)))
+		vc.assumePath(Implies(f.reach, f.evalClause(e, envPost)))
 	}
 	for _, sc := range sel {
 		for _, e := range sc.c.Ensures {
 			if !f.modeOK(e.Mode) {
 				continue
 			}
-			vc.assume(Implies(And(f.reach, sc.guard), f.evalClause(e, envPost)))
+			vc.assumePath(Implies(And(f.reach, sc.guard), f.evalClause(e, envPost)))
 		}
 	}
 	if con.NoReturn {
@@ -785,7 +847,7 @@ func (f *frame) havocAllMemory(why string) {
 	names := append([]string{}, vc.stateOrder...)
 	for _, k := range names {
 		if strings.HasPrefix(k, "Mem_") || strings.HasPrefix(k, "Map") {
-			f.cur[k] = vc.freshConst(stateSym(k), vc.stateSort[k])
+			f.cur[k] = vc.freshState(k)
 			f.recordMod(k)
 		}
 	}
@@ -811,7 +873,7 @@ func (f *frame) havocLocs(locs []locSpec, guard Term, pre State) {
 				f.recordMod(name)
 			}
 		case l.ghost != "":
-			n := vc.freshConst(stateSym(l.ghost), vc.stateSort[l.ghost])
+			n := vc.freshState(l.ghost)
 			f.cur[l.ghost] = vc.define(stateSym(l.ghost), Ite(guard, n, f.cur.get(vc, l.ghost)))
 			f.recordMod(l.ghost)
 		case l.isRange:
@@ -834,7 +896,7 @@ func (f *frame) havocLocs(locs []locSpec, guard Term, pre State) {
 	for _, name := range names {
 		ls := ranged[name]
 		cur := f.cur.get(vc, name)
-		n := vc.freshConst(stateSym(name), cur.Sort)
+		n := vc.freshState(name)
 		r := Term{"qr", SRef}
 		var in []Term
 		for _, l := range ls {
@@ -913,7 +975,7 @@ func (f *frame) unknownCall(name string, callee *ssa.Function, sig *types.Signat
 	}
 	sort.Strings(ks)
 	for _, k := range ks {
-		f.cur[k] = vc.freshConst(stateSym(k), vc.stateSort[k])
+		f.cur[k] = vc.freshState(k)
 		f.recordMod(k)
 	}
 	f.havocAlloc()
@@ -1002,8 +1064,26 @@ func (f *frame) inline(ins ssa.Instruction, callee *ssa.Function, con *Contract,
 		f.oblige("pre", fmt.Sprintf("%s requires %s", FuncName(callee), r.Text), nil, ins.Pos(), cond)
 	}
 	vc.inlineStack = append(vc.inlineStack, ins)
+	callerRegion := vc.regionStart
 	g.walk(f.reach, f.cur)
 	vc.inlineStack = vc.inlineStack[:len(vc.inlineStack)-1]
+	// after the callee: the caller's region, unless the callee's loops started a later one on every return path
+	vc.regionStart = callerRegion
+	if len(g.loops) > 0 {
+		minR := -1
+		for _, b := range callee.Blocks {
+			if len(b.Instrs) > 0 {
+				if _, isRet := b.Instrs[len(b.Instrs)-1].(*ssa.Return); isRet {
+					if r, ok := g.regionOut[b]; ok && (minR < 0 || r < minR) {
+						minR = r
+					}
+				}
+			}
+		}
+		if minR > callerRegion {
+			vc.regionStart = minR
+		}
+	}
 	vc.calleesUsed[FuncName(callee)] = "inlined"
 	// merge returns
 	if len(g.rets) == 0 {
@@ -1174,6 +1254,50 @@ func (f *frame) appendOp(common *ssa.CallCommon, result ssa.Value, pos token.Pos
 		return
 	}
 	ln, cp, off, arr := vc.sliceLen(s), vc.sliceCap(s), vc.sliceOff(s), vc.sliceArr(s)
+	// append(s, e1..ek) with a small literal k (varargs array): no new quantified memory
+	// version is needed. The element cells of a reallocated backing array are fresh memory,
+	// so "they already hold the copied prefix" is an assumption about unobserved cells, and
+	// the appended elements are plain stores.
+	if sl, ok := common.Args[1].(*ssa.Slice); ok && !srcIsString && sl.Low == nil && sl.High == nil {
+		if al, ok := sl.X.(*ssa.Alloc); ok {
+			if at, ok := al.Type().Underlying().(*types.Pointer).Elem().Underlying().(*types.Array); ok && at.Len() <= 4 {
+				k := at.Len()
+				newlen := vc.define(f.prefix+"_newlen", vc.add(ln, vc.idxLit(k)))
+				inplace := vc.define(f.prefix+"_inplace", vc.le(newlen, cp, true))
+				newobj := vc.define(f.prefix+"_appobj", vc.newObj(f.cur, "append"))
+				f.recordMod("$alloc")
+				newcap := vc.freshConst(f.prefix+"_newcap", vc.idxSort())
+				vc.assume(And(vc.le(newlen, newcap, true), vc.le(newcap, vc.intLit(new(big.Int).Lsh(big.NewInt(1), 40), 64), true)))
+				if result != nil {
+					f.setVal(result, Ite(inplace, vc.mkSlice(arr, off, newlen, cp), vc.mkSlice(newobj, vc.idxLit(0), newlen, newcap)))
+				}
+				// copied prefix (assumption about fresh cells)
+				q := Term{"qi", vc.idxSort()}
+				vc.inQuant++
+				vc.leafPaths(elemT, nil, func(path []pathStep, ti *typeInfo, lt types.Type) {
+					m := f.cur.get(vc, vc.memName(ti))
+					vc.assume(Forall([]Term{q}, Implies(And(vc.le(vc.idxLit(0), q, true), vc.lt(q, ln, true)),
+						Eq(Select(m, vc.applyPath(vc.elem(newobj, q), path), ti.sort), Select(m, vc.applyPath(vc.elem(arr, vc.add(off, q)), path), ti.sort)))))
+				})
+				vc.inQuant--
+				// the new elements
+				src := f.val(al)
+				tgtArr := vc.define(f.prefix+"_apparr", Ite(inplace, arr, newobj))
+				tgtOff := vc.define(f.prefix+"_appoff", Ite(inplace, vc.add(off, ln), ln))
+				for j := int64(0); j < k; j++ {
+					v := vc.load(f.cur, vc.elem(src, vc.idxLit(j)), elemT)
+					cell := vc.elem(tgtArr, vc.add(tgtOff, vc.idxLit(j)))
+					keys := map[string]bool{}
+					vc.memKeys(elemT, keys)
+					for kk := range keys {
+						f.recordMod(kk)
+					}
+					vc.storeMem(f.cur, cell, elemT, v)
+				}
+				return
+			}
+		}
+	}
 	newlen := vc.define(f.prefix+"_newlen", vc.add(ln, tlen))
 	inplace := vc.define(f.prefix+"_inplace", vc.le(newlen, cp, true))
 	newobj := vc.define(f.prefix+"_appobj", vc.newObj(f.cur, "append"))
@@ -1191,7 +1315,7 @@ func (f *frame) appendOp(common *ssa.CallCommon, result ssa.Value, pos token.Pos
 		name := vc.memName(ti)
 		old := pre.get(vc, name)
 		cur := f.cur.get(vc, name)
-		n := vc.freshConst(stateSym(name), old.Sort)
+		n := vc.freshState(name)
 		r := Term{"qr", SRef}
 		c, cell := vc.matchPath(r, path)
 		isElem := And(c, App(SBool, "(_ is elem)", cell))
@@ -1247,7 +1371,7 @@ func (f *frame) copyOp(common *ssa.CallCommon, result ssa.Value) {
 	vc.leafPaths(dt.Elem(), nil, func(path []pathStep, ti *typeInfo, lt types.Type) {
 		name := vc.memName(ti)
 		old := f.cur.get(vc, name)
-		nm := vc.freshConst(stateSym(name), old.Sort)
+		nm := vc.freshState(name)
 		r := Term{"qr", SRef}
 		c, cell := vc.matchPath(r, path)
 		i := App(vc.idxSort(), "eidx", cell)
